@@ -25,7 +25,7 @@ if ! git apply --3way "$dir/patch.diff" 2>/dev/null && ! git apply "$dir/patch.d
 mkdir -p "$wt/target"; cp -a /tmp/confirm-clean/target/debug "$wt/target/" 2>/dev/null
 if ! CARGO_TARGET_DIR="$wt/target" cargo build --offline -q 2>/tmp/confirm-build.err; then res true false false false false; cleanup; exit 4; fi
 tests=true
-CARGO_TARGET_DIR="$wt/target" cargo test --workspace --no-fail-fast --offline 2>&1 | tee /tmp/confirm-test.log | grep -E "^test .* FAILED" | grep -v test_run_itself | grep -q . && tests=false
+CARGO_TARGET_DIR="$wt/target" cargo test --workspace --no-fail-fast --offline 2>&1 | tee /tmp/confirm-test.log | grep -E "^test [^ ]+ \.\.\. FAILED" | grep -v test_run_itself | grep -q . && tests=false
 grep -q "^test result" /tmp/confirm-test.log || tests=false
 fw=true; pw=true
 for i in 1 2; do if (cd "$dir" && timeout 300 bash ./demo.sh "$wt/target/debug/cicada" >/dev/null 2>&1); then fw=false; fi; done
